@@ -17,12 +17,14 @@ import H3.Gen.Headers
       the parsed value.  The laws the theorems need are listed in `HttpLaws`.
     * `HeaderMap` is an insertion-ordered list of groups (name, values in arrival order).
 
-    Four decisions of the code are read from the source on every run (`H3.Gen.Headers`):
+    Five decisions of the code are read from the source on every run (`H3.Gen.Headers`):
     `nameRejectsDquote`, `mapFallible`, `trailersRefusePseudo` — `true` on a tree with the three
-    `fix:` commits of C12 and `false` on the tree before them — and `mapPresizeRefuses` — `false`
-    on a tree with the D-01 fix (a map that cannot be pre-sized starts empty), `true` before it.
-    The model follows the tree it is built against; the theorems need the first three `true` and
-    the last one `false`. -/
+    `fix:` commits of C12 and `false` on the tree before them —, `mapPresizeRefuses` — `false`
+    on a tree with the D-01 fix (a map that cannot be pre-sized starts empty), `true` before it —
+    and `hostEveryValue` — `true` on a tree with the D-12e fix (`into_request_parts` looks at every
+    `Host` value), `false` before it (only the first one).
+    The model follows the tree it is built against; the theorems need `mapPresizeRefuses = false`
+    and the other four `true`. -/
 namespace H3.Headers
 open H3.Gen
 
@@ -305,9 +307,17 @@ def chooseAuthority : Option Bytes → Option Bytes → Res Bytes
   | none, some h => .ok h
   | some a, some h => if a = h then .ok h else .err .contradictedAuthority
 
-/-- `Header::into_request_parts`: `:path` and `:scheme` go to the builder when present, then the
-    authority decision, then `:method` is demanded, then `build()`. -/
+/-- `hosts.next()` is `Some(first)` and `hosts.any(|h| h != first)` is false, or there is no
+    value: every value of `get_all("host")` is the first one. -/
+def allFirst : List Bytes → Bool
+  | [] => true
+  | first :: rest => rest.all (· == first)
+
+/-- `Header::into_request_parts`: `:path` and `:scheme` go to the builder when present, then (with
+    the D-12e fix, `hostEveryValue`) a request whose `Host` values are not all the same is refused,
+    then the authority decision, then `:method` is demanded, then `build()`. -/
 def Header.intoRequestParts (H : Http) (h : Header) : Res RequestParts :=
+  if Headers.hostEveryValue && !allFirst (hmGroup h.fields nHost) then .err .contradictedAuthority else
   match chooseAuthority h.pseudo.authority (hmGet h.fields nHost) with
   | .err e => .err e
   | .panic => .panic
